@@ -109,6 +109,7 @@ def kbucketStep (st : KbucketSt) (toks : List String) : KbucketSt × String :=
       | none => "none"
       | some a => s!"{showKey a.inserted}/{match a.evicted with | some e => showKey e | none => "-"}"
     ({ st with table := t }, r)
+  | ["kdiscv5", _, _] => (st, "ok")  -- configuration-level monitor on the implementation only
   | ["kdump"] => (st, dump st.table)
   | _ => (st, "bad-op")
 
